@@ -121,7 +121,7 @@ def setup_all():
 # ---------------------------------------------------------------- proof stage
 
 # further statement files that belong to a property (built, listed and checked together with Props/<prop>.v)
-EXTRA_PROPS = {"C18": ["C18Float"], "C12": ["C12Atomic"], "C17": ["C17SkipList", "C17Hash", "C17Stopper"], "C20": ["C20Startup"], "C14": ["C14Heap"], "C06": ["C06Tuple"], "C10": ["C10Catalog"], "C11": ["C11TmpPage"], "C08": ["C08Link"], "C13": ["C13Alloc", "C13Clock", "C13Disk"]}
+EXTRA_PROPS = {"C18": ["C18Float"], "C12": ["C12Atomic"], "C17": ["C17SkipList", "C17Hash", "C17Stopper"], "C20": ["C20Startup"], "C14": ["C14Heap"], "C06": ["C06Tuple"], "C10": ["C10Catalog"], "C11": ["C11TmpPage"], "C08": ["C08Link"], "C13": ["C13Alloc", "C13Clock", "C13Disk"], "C01": ["C01LogRead"]}
 
 
 def props_files(prop):
